@@ -39,6 +39,18 @@ theorem C09_only_where_running (w : W) (a : Nat) :
 theorem C09_pickup_highest {α} (l : List (Nat × α)) (k : Nat) (h : maxKey l = some k) : ∀ x ∈ l, x.1 ≤ k :=
   maxKey_ge l k h
 
+/-- **C09 (stop of all applications).**  `Stopper.stop_applications` stores exactly the applications that have a running process
+    (each with the plan of `C09_only_where_running`), then triggers the Stopper ONCE: the applications of the highest
+    stop_sequence are picked up first (`C09_application_pickup_highest`). -/
+theorem C09_stop_all_apps (w : W) (a : Nat) :
+    a ∈ stopAllApps w ↔ a < w.acfg.length ∧ hasRunningProcesses w a = true := by
+  unfold stopAllApps
+  simp [List.mem_filter]
+
+/-- **C09 (applications in decreasing stop_sequence).**  The Stopper picks the planned applications of the highest sequence number. -/
+theorem C09_application_pickup_highest (w : W) (k : Nat) (h : maxKey w.splanned = some k) : ∀ x ∈ w.splanned, x.1 ≤ k :=
+  maxKey_ge w.splanned k h
+
 /-- **C09 (completion of a stop request).**  A stop request is finished exactly when the target reports a stopped state; it is
     given up when STOPPING lasts longer than the wait ticks, or when no STOPPING is seen within the tick margin. -/
 theorem C09_stop_completion (state : PState) (req wait cnt : Nat) :
